@@ -201,6 +201,27 @@ func c15Exec(x *Ctx) {
 			case 2:
 				// stop after some replies, then start again at offset 0
 				c15List(x, p, func(int) int { return minInt(maxc, largest+sel%(largest+1)) }, want, "partial listing", dotu, 1+sel%3)
+				if sel%2 == 1 {
+					// the directory changes between the abandoned listing and the new one, and keeps its
+					// modification time (as after tar / rsync -t): offset 0 must list what is there now
+					if fi, err := os.Stat(dir); err == nil {
+						os.WriteFile(filepath.Join(dir, "zz-added-later"), []byte("x"), 0o640)
+						want["zz-added-later"] = true
+						for _, n := range names {
+							if want[n] {
+								if os.RemoveAll(filepath.Join(dir, n)) == nil {
+									delete(want, n)
+								}
+								break
+							}
+						}
+						os.Chtimes(dir, fi.ModTime(), fi.ModTime())
+						x.Probe("directory-changed-before-rewind")
+					}
+				}
+				if sel%2 == 1 {
+					largest = maxc // the added entry's size is not known here
+				}
 				c15List(x, p, func(int) int { return minInt(maxc, largest+sel%(largest+1)) }, want, "listing restarted at offset 0", dotu, -1)
 				x.Probe("restart-at-zero-mid-listing")
 			case 4:
